@@ -21,7 +21,8 @@ EXPLANATION = (
     "flux integrand (A . n_hat) |dr/dt| equals A_x y' - A_y x'; J5 the planar divergence integrand is div F |r_u x r_v|; J6 the volume "
     "integrand is div F times the Jacobian h1 h2 h3 of the coordinate system, integrated over z, y, x with each variable paired with "
     "its own limits. With these forms, parametrisation-speed independence and the sign change under orientation reversal are "
-    "properties of the forms themselves, and Stokes'/Green's/Gauss' theorems state the equalities. NOT decided: that "
+    "properties of the forms themselves, and Stokes'/Green's/Gauss' theorems state the equalities. J7 no assumption-forcing "
+    "simplification (posify, force=True) on the way to an integrand. NOT decided: that "
     "sympy.integrate / simplify evaluate the integrals correctly (so the numerical agreement itself), nor the laws/fields wrappers' "
     "unit handling.")
 ASSUMPTIONS = ["Stokes', Green's and Gauss' theorems (mathematics)", "sympy.integrate, simplify, sympy.vector differentiation are correct",
